@@ -629,12 +629,20 @@ def self_check(cases):
             out = subprocess.run([exe], stdin=fin, stdout=subprocess.PIPE, text=True).stdout.split("\n")
     finally:
         os.unlink(path)
-    lines = [ln for c in cases for ln in c.lines]
     # `err:pre(size_type truncates the size)` is not a generator defect: the size type of the model is the chain extracted
     # from the header under check (GenSize.lean); for a chain that selects too narrow a type the model reports the truncation
-    # on a perfectly valid line (size_fits no longer holds) and the line goes on to the comparison with the implementation
-    bad = [(lines[i], o) for i, o in enumerate(out[:len(lines)]) if o.startswith("invalid") or o.startswith("bad-op")
-           or (o.startswith("err:") and "size_type truncates the size" not in o.split("\t")[0])]
+    # on a perfectly valid line (size_fits no longer holds); that line and the rest of its history go on to the comparison
+    # with the implementation
+    bad, pos = [], 0
+    for c in cases:
+        truncated = False
+        for ln in c.lines:
+            o = out[pos] if pos < len(out) else ""
+            pos += 1
+            if o.startswith("err:") and "size_type truncates the size" in o.split("\t")[0]:
+                truncated = True
+            elif o.startswith("invalid") or o.startswith("bad-op") or (o.startswith("err:") and not truncated):
+                bad.append((ln, o))
     if bad:
         raise lib.MachineryError("generator produced %d lines that violate a precondition or make the model fail, "
                                  "first: %r" % (len(bad), bad[0]))
